@@ -187,12 +187,13 @@ path = "src/lib.rs"
 
 [dependencies]
 libc = { path = "%s" }
+%s
 
 [workspace]
 
 [lints.rust]
 unexpected_cfgs = { level = "allow", check-cfg = ['cfg(kani)'] }
-''' % shim_dst)
+''' % (shim_dst, ('mach2 = { path = "%s" }' % os.path.join(VERIF, "shims", "mach2")) if osname == "macos" else ""))
     os.makedirs(os.path.join(dest, ".cargo"), exist_ok=True)
     with open(os.path.join(dest, ".cargo", "config.toml"), "w") as fh:
         fh.write("[net]\noffline = true\n")
